@@ -1,6 +1,6 @@
 (* Glue for the correspondence of the generic tree model with the implementation. The harness dumps
    real model objects as `node` terms (ids = Python object identities renumbered, toks = `.tokens`). *)
-From AB Require Import Desc Generated Tree TreeDefs TreeWF.
+From AB Require Import Desc Generated Tree TreeDefs TreeWF TreeEdit.
 From Coq Require Import ZArith.
 Open Scope list_scope.
 
@@ -91,3 +91,54 @@ Definition check_wcase (c : wcase) : bool :=
     conforms all_classes a && wf_b all_classes a
     && match store with None => true | Some st => whole_store_b a st end
   end.
+
+(* Tree-level edits of the model (TreeEdit.plug / insert_item / remove_item) against real edits: `before`
+   and `after` are dumps of the same root with ONE Dumper (token and store numbering shared), `p` the path
+   from the root to the node that was replaced (TPlug) or to the model owning the repeated field `f`
+   (TInsert / TRemove), `i` the index in Repeated.items. The new sub-tree / the inserted item and its
+   separator tokens are read off `after`. *)
+Inductive ecase :=
+| TPlug (before : node) (p : path) (after : node)
+| TInsert (before : node) (p : path) (f : string) (i : nat) (after : node)
+| TRemove (before : node) (p : path) (f : string) (i : nat) (after : node).
+
+Definition tree_same (r a : node) : bool :=
+  node_same r a && ids_eqb (node_toks r) (node_toks a) && ids_eqb (leaves r) (leaves a)
+  && list_eqb Z.eqb (sids r) (sids a)
+  && list_eqb ids_eqb (map unit_toks (subunits r)) (map unit_toks (subunits a)).
+
+(* the inserted item and the separator tokens put before it, as found in the tree after the edit *)
+Definition observed_insert (after : node) (p : path) (f : string) (i : nat) : option (list tk * node) :=
+  match select after p with
+  | Some n =>
+    match node_rep n f with
+    | Some (_, rt, ph, items) =>
+      match nth_error items i with
+      | Some y =>
+        match after_unit rt (prev_unit ph items i), node_toks y with
+        | Some a, x :: _ => match find_off x rt with Some b => Some (slice rt a b, y) | None => None end
+        | _, _ => None
+        end
+      | None => None
+      end
+    | None => None
+    end
+  | None => None
+  end.
+
+Definition check_ecase (c : ecase) : bool :=
+  match c with
+  | TPlug b p a =>
+    match select a p with
+    | Some new => match plug b p new with Some r => tree_same r a | None => false end
+    | None => false
+    end
+  | TInsert b p f i a =>
+    match observed_insert a p f i with
+    | Some (seps, y) => match insert_item b p f i seps y with Some r => tree_same r a | None => false end
+    | None => false
+    end
+  | TRemove b p f i a =>
+    match remove_item b p f i with Some (_, r) => tree_same r a | None => false end
+  end
+  && match c with TPlug b _ a | TInsert b _ _ _ a | TRemove b _ _ _ a => hwf_b all_classes b && hwf_b all_classes a end.
